@@ -1056,6 +1056,10 @@ class QuantityMeta(ClassWithDefinitionMeta):
             else:
                 raise ValueError("Item with same or equivalent definition "
                                  f"already registered: '{reg_cls}'.")
+        # map of units associated with Quantity class (must be created here,
+        # otherwise the reference unit would be added to the map inherited from
+        # the base class)
+        cls._unit_map = {}
         if ref_unit_symbol:
             cls._ref_unit = cls._make_ref_unit(ref_unit_symbol, ref_unit_name,
                                                ref_unit_def)
